@@ -133,7 +133,7 @@ fn text_expect_accept(s: &str, kt: KT) -> Option<bool> {
     }
 }
 
-fn judge_text(ctx: &mut Ctx, kind: &str, s: &str, via_json: bool) {
+fn judge_text_one(ctx: &mut Ctx, kind: &str, s: &str, via_json: bool) {
     ctx.trace_case(|| json!({"kind": "text", "text": s, "json": via_json}));
     for kt in dec::kts() {
         let want = match text_expect_accept(s, kt) {
@@ -171,6 +171,14 @@ fn judge_text(ctx: &mut Ctx, kind: &str, s: &str, via_json: bool) {
     }
 }
 
+/// Every text goes through BOTH entry points: `str::parse` and JSON deserialisation.
+fn judge_text(ctx: &mut Ctx, kind: &str, s: &str, via_json: bool) {
+    judge_text_one(ctx, kind, s, via_json);
+    if !via_json {
+        judge_text_one(ctx, kind, s, true);
+    }
+}
+
 pub fn c12(ctx: &mut Ctx) {
     let q = ctx.quick();
     let pools = crate::props::Pools::new();
@@ -204,7 +212,7 @@ pub fn c12(ctx: &mut Ctx) {
             judge_text(ctx, "padding", &format!("{body}{pad}"), false);
         }
         judge_text(ctx, "padding", &format!("{text}="), true);
-        for ws in [" ", "\n", "\t", "\r\n"] {
+        for ws in [" ", "\n", "\t", "\r\n", "\u{a0}", "\u{2003}", "\u{feff}", "\u{0}"] {
             judge_text(ctx, "whitespace", &format!("{ws}{text}"), false);
             judge_text(ctx, "whitespace", &format!("{text}{ws}"), false);
             let mid = 4 + body.len() / 2;
@@ -831,8 +839,25 @@ fn pool_check<KK: KeyKind>(ctx: &mut Ctx, states: &[Obs], scheme: Scheme, replay
         if guard(|| e4.set_seq(o.seq.wrapping_add(1), if signer_is_own { &own } else { &other })).map(|r| r.is_ok()).unwrap_or(false) {
             pool.push(mk(e4, i, "seq-edited"));
         }
+        // same sequence number, content extended by a key that sorts last / shortened by its last custom
+        // key / one value edited: content comparison must tell them apart although seq is equal
+        let signer = if signer_is_own { &own } else { &other };
+        let mut e5 = e.clone();
+        if guard(|| e5.insert(b"~zz", &1u8, signer).is_ok() && e5.set_seq(o.seq, signer).is_ok()).unwrap_or(false) {
+            pool.push(mk(e5, i, "extended-same-seq"));
+        }
+        if let Some((last_key, _)) = o.pairs.iter().rev().find(|(k, _)| k.as_slice() > &b"toy"[..] || (k.as_slice() > &b"secp256k1"[..] && k.as_slice() != b"toy")) {
+            let mut e6 = e.clone();
+            if guard(|| e6.remove_key(last_key, signer).is_ok() && e6.set_seq(o.seq, signer).is_ok()).unwrap_or(false) {
+                pool.push(mk(e6, i, "shortened-same-seq"));
+            }
+        }
+        let mut e7 = e.clone();
+        if guard(|| e7.insert(b"a", &(i as u64 + 7), signer).is_ok() && e7.set_seq(o.seq, signer).is_ok()).unwrap_or(false) {
+            pool.push(mk(e7, i, "value-edited-same-seq"));
+        }
         pool.push(mk(e, i, "decoded"));
-        if pool.len() > 220 {
+        if pool.len() > 260 {
             break;
         }
     }
@@ -1228,7 +1253,7 @@ fn sign_and_check(ctx: &mut Ctx, k: &enr::CombinedKey, scheme: Scheme, want_pub:
 }
 
 pub fn replay_text(ctx: &mut Ctx, s: &str, via_json: bool) {
-    judge_text(ctx, "replay", s, via_json);
+    judge_text_one(ctx, "replay", s, via_json);
 }
 
 pub fn replay_stream(ctx: &mut Ctx, item: &[u8], suffix: &[u8]) {
